@@ -270,7 +270,15 @@ def dbCreate (o : FOps) (d : Db) (x : Snap) : Res (Db × Int) :=
 /-- `track::update` on a track that exists. -/
 def dbUpdate (o : FOps) (d : Db) (id : Int) (x : Snap) : Res Db :=
   match d.rows id with
-  | none => .throw (.dj "track_deleted")
+  | none =>
+    -- the preparation steps run (and may throw) first; then `UPDATE Track` finds no row (after the `fix:`;
+    -- before it the call went on to write the dependent rows of the missing track and returned normally)
+    match writeSnap o d.schema x none with
+    | .ub u => .ub u
+    | .throw e =>
+      if x.relativePath.isNone ∨ e = .dj "invalid_track_snapshot" ∨ e = .dj "loops_overflow" then .throw e
+      else .throw (.dj "track_deleted")
+    | .ok _ => .throw (.dj "track_deleted")
   | some prior =>
     match writeSnap o d.schema x (some prior) with
     | .ub u => .ub u
@@ -284,14 +292,35 @@ def dbUpdate (o : FOps) (d : Db) (id : Int) (x : Snap) : Res Db :=
       if pathTaken d id (rows.track.path.getD []) then .throw .sqlite_error
       else .ok { d with tracks := aset id rows d.tracks }
 
+/-- Getters that read a `Track` column (`get_track_column` throws `track_deleted` when the row is gone);
+the others read MetaData / MetaDataInteger / PerformanceData rows and, on the handle of a removed track,
+answer as for a track that has no such rows. -/
+def Field.trackColumn : Field → Bool
+  | .bitrate | .bpm | .duration | .relativePath | .trackNumber | .year => true
+  | _ => false
+
+/-- Setters whose first write is an `UPDATE Track … WHERE id = ?` or a single MetaData /
+MetaDataInteger row: on the handle of a removed track they throw `track_deleted` (after the `fix:`;
+before it they returned normally and the meta-data ones inserted rows for the missing track).  The
+remaining setters go through a PerformanceData blob column first and fail there. -/
+def Field.rowSetter : Field → Bool
+  | .averageLoudness | .beatgrid | .hotCues | .hotCueAt _ | .key | .loops | .loopAt _ | .mainCue | .waveform => false
+  | _ => true
+
 def dbGet (o : FOps) (d : Db) (id : Int) (f : Field) : Res f.ty :=
   match d.rows id with
-  | none => .throw (.dj "track_deleted")
+  | none => if f.trackColumn then .throw (.dj "track_deleted") else get o blankRows f
   | some r => get o r f
 
 def dbSet (o : FOps) (d : Db) (id : Int) (f : Field) (v : f.ty) : Res Db :=
   match d.rows id with
-  | none => .throw (.dj "track_deleted")
+  | none =>
+    if f.rowSetter then .throw (.dj "track_deleted") else
+    -- the blob setters read default columns, then fail in the guard / the INSERT of default blobs
+    match set o blankRows f v with
+    | .ok _ => .throw .runtime_error
+    | .throw e => .throw e
+    | .ub u => .ub u
   | some r =>
     let conflict : Bool := match f, v with
       | .relativePath, p => pathTaken d id p
@@ -301,6 +330,12 @@ def dbSet (o : FOps) (d : Db) (id : Int) (f : Field) (v : f.ty) : Res Db :=
     | .ok r' => .ok { d with tracks := aset id r' d.tracks }
     | .throw e => .throw e
     | .ub u => .ub u
+
+/-- `database::remove_track`: the rows of the track in all four tables go (after the `fix:`). -/
+def dbRemove (d : Db) (id : Int) : Db := { d with tracks := d.tracks.filter fun e => e.1 ≠ id }
+
+/-- `track::is_valid`: the `Track` row exists. -/
+def dbIsValid (d : Db) (id : Int) : Bool := (d.rows id).isSome
 
 def dbSnap (o : FOps) (d : Db) (id : Int) : Res Snap :=
   match d.rows id with
